@@ -74,7 +74,7 @@ def exec_part(owner=None):
 
 PROPS_C06 = {'level': 'other', 'rule': 'one obligation per (function, clause of its specification); the functions are the MIR bodies of the current tree; non-trivial = obligation whose function body was symbolically executed along at least one path',
             'explanation': 'E2: symbolic execution of the nightly MIR of the current tree (callees uninterpreted, Vec<ResourceId> as z3 sequences), z3 decides every comparison, cvc5 re-decides the same SMT-LIB text',
-            'functions': [], 'bounds': {'loop unrolling': 3, 'tuple arities': '1..26', 'derive samples': 'mir/derive_samples (7 structs, nesting 3)'},
+            'functions': [], 'bounds': {'loop unrolling': 3, 'tuple arities': '1..26', 'derive samples': 'mir/derive_samples (9 structs: named, tuple, extra lifetimes, generics + where, bare type-parameter fields, nesting 3)'},
             'assumptions': ['callees that are type parameters or third-party code are uninterpreted: the claim is parametric in them', 'atomic_refcell releases a borrow when its guard is dropped', 'rustc nightly MIR (debug-assertions off) is the semantics of the source'],
             'outside': ['run-time borrow state of a populated World (hashbrown)', 'user-written SystemData impls'],
             'parts': [{'engine': 'mir'}]}
@@ -135,7 +135,7 @@ RELABEL_BOUNDS = {'relabel shapes': '1x1x1 1x2x1 2x1x1 1x1x2, <= 2 reads and <= 
 PROPS = {
     'C01': prop('model_checking', [step_part(), commit_part(), exec_part(), mir_part(['spec_insert', 'spec_stage_exec'])], STEP_FUNCS + EXEC_FUNCS, both(STEP_BOUNDS, EXEC_BOUNDS), STEP_ASSUME + EXEC_ASSUME, STEP_OUT + EXEC_OUT, RULE_STEP + ' | ' + RULE_EXEC),
     'C02': prop('model_checking', [step_part(), exec_part(), mir_part(['spec_add'])], STEP_FUNCS + EXEC_FUNCS + ['DispatcherBuilder::add'], both(STEP_BOUNDS, EXEC_BOUNDS), STEP_ASSUME + EXEC_ASSUME + MIR_ASSUME, STEP_OUT + EXEC_OUT, RULE_STEP + ' | ' + RULE_EXEC + ' | ' + MIR_RULE),
-    'C03': prop('model_checking', [step_part(), exec_part(), unit_part(r'^unit_barrier_'), mir_part(['spec_add_barrier', 'spec_insertion_target'])], STEP_FUNCS + ['StagesBuilder::add_barrier', 'DispatcherBuilder::add_barrier'], both(STEP_BOUNDS, EXEC_BOUNDS), STEP_ASSUME + EXEC_ASSUME + MIR_ASSUME, STEP_OUT + EXEC_OUT, RULE_STEP + ' | ' + RULE_EXEC + ' | ' + MIR_RULE),
+    'C03': prop('model_checking', [step_part(), commit_part(), exec_part(), unit_part(r'^unit_barrier_'), mir_part(['spec_add_barrier', 'spec_insertion_target', 'spec_insert'])], STEP_FUNCS + ['StagesBuilder::add_barrier', 'DispatcherBuilder::add_barrier'], both(STEP_BOUNDS, EXEC_BOUNDS), STEP_ASSUME + EXEC_ASSUME + MIR_ASSUME, STEP_OUT + EXEC_OUT, RULE_STEP + ' | ' + RULE_EXEC + ' | ' + MIR_RULE),
     'C04': prop('model_checking', [exec_part('C04'), commit_part('C04'), mir_part()], EXEC_FUNCS + ['MultiDispatcher::run', 'DispatcherBuilder::add_batch'], EXEC_BOUNDS, EXEC_ASSUME + MIR_ASSUME, EXEC_OUT + ['hundreds of systems as one concrete plan (covered through the commit induction)'], RULE_EXEC + ' | ' + MIR_RULE),
     'C05': prop('model_checking', [exec_part(), dict(step_part(), labels=['C01']), mir_part(['spec_insert', 'spec_stage_exec', 'spec_feature_configs'])], EXEC_FUNCS + STEP_FUNCS, EXEC_BOUNDS, EXEC_ASSUME, EXEC_OUT + ['that non-conflicting steps commute on the real World under real interleavings (reduced claim: order agreement of dispatch_par and dispatch_seq on every ordered pair)'], RULE_EXEC),
     'C06': PROPS_C06,
